@@ -90,7 +90,7 @@ func c18Template(r *R) string {
 	n := r.Range(2, 7)
 	dump := func(e string) string { return "\x01{{ " + e + "|json_encode }}\x02" }
 	for i := 0; i < n; i++ {
-		switch r.N(25) {
+		switch r.N(26) {
 		case 0, 1:
 			l, f := listAndFilter(r)
 			sb.WriteString("{{ " + l + "|" + f + "|json_encode }};")
@@ -173,6 +173,13 @@ func c18Template(r *R) string {
 		case 24:
 			// values a template only looks at (truthiness, definedness), never prints: funcs that would compute something
 			sb.WriteString("{% if svc.lazy %}L{% endif %}{{ svc.lazy is defined ? 'd' : 'u' }}{{ svc['lazy'] is null ? 'n' : 'v' }}{% if svc.handlers.lz %}H{% endif %}{% if lz %}T{% endif %};")
+		case 25:
+			// membership tests against long lists; the merge FUNCTION on hashes that share nested keys
+			sb.WriteString(pick(r, []string{
+				"{{ 'k17' in longl ? 1 : 0 }}{{ 5 not in longl ? 1 : 0 }}{{ 'zz' in longl ? 1 : 0 }}{{ longl|first }}",
+				"{% set mg = merge(cfgd, cfgs) %}{{ mg.db.port }}{{ mg|keys|join(',') }}{{ cfgd.db.port }}",
+				"{% set ov = {'zz': 1} %}{{ merge(m1, {'inner': ov})|keys|length }}{{ merge(gm, m1)|length }}{{ m1.inner|keys|join(',') }}",
+			}) + ";")
 		default:
 			sb.WriteString("{% do " + "n1 + 1 %}{{ pp.Inner.Name }}{{ pp.Greeting }}{{ l2|first|json_encode }};")
 		}
@@ -200,6 +207,15 @@ func (propC18) Gen(seed uint64, ex map[string]bool) interface{} {
 		KV{"parr", &Val{T: "parr"}},
 		KV{"arr", &Val{T: "arr"}},
 		KV{"inil", &Val{T: "inil"}},
+		KV{"longl", &Val{T: "list", L: func() []*Val {
+			var l []*Val
+			for k := 59; k >= 0; k-- {
+				l = append(l, s(fmt.Sprintf("k%02d", (k*37)%60)))
+			}
+			return l
+		}()}},
+		KV{"cfgd", &Val{T: "map", M: []KV{{"db", &Val{T: "map", M: []KV{{"host", s("h")}, {"port", i(1)}}}}, {"name", s("defaults")}}}},
+		KV{"cfgs", &Val{T: "map", M: []KV{{"db", &Val{T: "map", M: []KV{{"port", i(2)}}}}, {"site", s("s")}}}},
 		KV{"buf", &Val{T: "buffer", S: "buffered <text>"}},
 		KV{"lz", &Val{T: "lazy", S: "top"}},
 		KV{"html", &Val{T: "map", M: []KV{{"title", s("<b>T & t</b>")}, {"rows", &Val{T: "list", L: []*Val{{T: "list", L: []*Val{s("<td>"), s("a&b")}}, {T: "map", M: []KV{{"k", s("<i>\"q\"</i>")}}}}}}}}},
